@@ -235,6 +235,21 @@ def main(tier):
                     key = 'nudging:option-nudgeOrthogonalSegmentsConnectedToShapes:checkpoint-moved'
                 elif any(spur(c) for c in x['conns'] if c['cps']):
                     key = 'checkpoint:out-and-back-excursion-dropped-from-displayed-route'
+                else:
+                    def near_bend(c):
+                        # (class name only) the connector has ONE checkpoint, and on the raw route that checkpoint sits inside a segment no
+                        # further from the bend at its end than the nudging distance: nudging the adjoining segment shortened it past the checkpoint
+                        if len(c['cps']) != 1:
+                            return False
+                        cp = c['cps'][0]
+                        pts = [p for i, p in enumerate(c['raw']) if i == 0 or p != c['raw'][i - 1]]
+                        bends = [pts[i] for i in range(1, len(pts) - 1)
+                                 if (pts[i][0] - pts[i - 1][0] == 0) != (pts[i + 1][0] - pts[i][0] == 0)]
+                        return any((b[0] == cp[0] or b[1] == cp[1]) and 0 < abs(b[0] - cp[0]) + abs(b[1] - cp[1]) <= x['d'] + x['buf'] for b in bends)
+                    off = [c for c in x['conns'] if c['cps'] and not all(any(min(a[0], b[0]) - 2 <= cp[0] <= max(a[0], b[0]) + 2 and min(a[1], b[1]) - 2 <= cp[1] <= max(a[1], b[1]) + 2
+                                                                                for a, b in zip(c['disp'], c['disp'][1:])) for cp in c['cps'])]
+                    if off and all(near_bend(c) for c in off):
+                        key = 'checkpoint:single-checkpoint-next-to-a-bend:adjoining-segment-nudged-past-it'
             vd.violation(key, t + ': ' + desc[:700], x)
     # ---- design level: the range bookkeeping of nudgeOrthogonalRoutes as a state machine (explains F11 / F34)
     rn = V.tlc(os.path.join(V.SPEC, 'avoid', 'NudgeRanges.tla'), os.path.join(V.SPEC, 'avoid', 'NudgeRanges.cfg'), timeout=300, cont=True, workers=4)
